@@ -38,7 +38,8 @@ type Lab struct {
 
 func NewLab(p *Program, pkgDir string) *Lab {
 	l := &Lab{P: p, PkgDir: pkgDir, Src: p.pkgSrcDir(pkgDir)}
-	l.AbsDir = filepath.Join(p.Root, "abs_snaps_"+strings.ReplaceAll(pkgDir, "/", "_"))
+	// (the directory's own name contains `.snap`: only FILE names decide what a snapshot file is)
+	l.AbsDir = filepath.Join(p.Root, "abs.snaps_"+strings.ReplaceAll(pkgDir, "/", "_"))
 	l.Roots = []string{filepath.Join(l.Src, "__snapshots__"), filepath.Join(l.Src, "snaps_rel"), l.AbsDir, filepath.Join(l.Src, "snaps_unvisited")}
 	return l
 }
@@ -167,7 +168,7 @@ func (l *Lab) Gen(r *rand.Rand, o LabOpts) *LabCase {
 	sort.Strings(tops)
 	cfgs := []cfgChoice{{}, {}, {}, {File: "custom"}, {File: "shared"}, {Ext: ".txt"}, {Dir: "snaps_rel"}, {Dir: l.AbsDir}, {Dir: l.AbsDir, File: "custom", Ext: ".json"},
 		// directories that are not in clean form (trailing separator, `/./`, doubled separator)
-		{Dir: l.AbsDir + "/"}, {Dir: l.AbsDir + "/./"}, {Dir: "snaps_rel/"}, {Ext: ".golden.txt"}, {Ext: "_v2"}, {Ext: ".snapshot"}, {File: "custom", Ext: ".snap.json"}, {Dir: strings.Replace(l.AbsDir, "/abs_snaps", "//abs_snaps", 1)}}
+		{Dir: l.AbsDir + "/"}, {Dir: l.AbsDir + "/./"}, {Dir: "snaps_rel/"}, {Ext: ".golden.txt"}, {Ext: "_v2"}, {Ext: ".snapshot"}, {File: "custom", Ext: ".snap.json"}, {Dir: strings.Replace(l.AbsDir, "/abs.snaps", "//abs.snaps", 1)}}
 	var addNode func(name string, depth int)
 	addNode = func(name string, depth int) {
 		n := &Node{}
@@ -554,6 +555,10 @@ func (l *Lab) Seed(r *rand.Rand, own *Owned, o LabOpts) *Seeded {
 					id = vkit.SlotID(t, own.MaxCalls[t]+1+r.IntN(2))
 				case 3:
 					id = fmt.Sprintf("TestAZ - %d", 1+r.IntN(2)) // sibling-prefix name of TestA that is not in the program
+					if r.IntN(4) == 0 {
+						// the id a handle without a name leaves behind (testing.Benchmark's anonymous *testing.B)
+						id = fmt.Sprintf(" - %d", 1+r.IntN(2))
+					}
 				default:
 					// an id that is LIVE in another file: the test takes more snapshots there than in this file
 					// (one test writing to two files and dropping its N-th snapshot in only one of them)
